@@ -684,7 +684,9 @@ def run_hearm(case, res):
         covered = not foreign and set(same) <= ours
         uncovered = not set(same) <= ours     # a record of this very question that we do not hold: the peer knows more, we have to ask
         asked = ty.lower() in out["asked"]
-        demand_sup = heard_qm and case["port"] == 5353 and covered and now - t_first <= 999
+        # a query multicast from another source port (a one-shot / legacy resolver, a peer with unicast=True) is heard and answered by this
+        # instance as an authoritative responder just the same: the sentence has no source-port qualifier, so it counts as "heard"
+        demand_sup = heard_qm and covered and now - t_first <= 999
         demand_sent = (not heard_qm) or now - t_last > 999 or uncovered
         if demand_sup and asked:
             bad.append(("C13:heard-question-suppression", "a %s-question query (%s) from port %d was heard %d ms earlier by a host authoritative for %s; its QM question %s "
